@@ -101,7 +101,11 @@ impl FileSpec {
             Err(FlexiLoggerError::OutputBadFile)
         } else {
             Ok(FileSpec {
-                directory: p.parent().unwrap(/*cannot fail*/).to_path_buf(),
+                // a bare file name has the empty path as parent: that is the current folder
+                directory: p
+                    .parent()
+                    .filter(|parent| !parent.as_os_str().is_empty())
+                    .map_or_else(|| PathBuf::from("."), Path::to_path_buf),
                 basename: p.file_stem().unwrap(/*ok*/).to_string_lossy().to_string(),
                 o_discriminant: None,
                 o_suffix: p.extension().map(|s| s.to_string_lossy().to_string()),
